@@ -5,9 +5,11 @@
              BUILD TAB inmodel=b TAB planok=b TAB coll=<xhex|-> TAB <line>
                                                  a buildPendingEntries case whose implementation result is
                                                  outside the model's result set and/or is not a correct plan
+             VMCASE TAB <line> TAB <coq term>   only with VM_SAMPLE: the model's result for a sampled operation (util.ml)
              SUMMARY k=v ...
    cluster_model runner [fuel]   stdin: one trace per line:  T <name> <delay 0|1> <event> <event> ...
      stdout: ACCEPT name states=n / REJECT name depth=k len=n event=<tok> / INCONCLUSIVE name
+             VMCASE TAB T TAB name TAB delay TAB events TAB (|states|, conclusive, accepted prefix)   only with VM_SAMPLE
              SUMMARY k=v ... *)
 open Model
 open Util
@@ -42,6 +44,12 @@ let parse_cmap (s : string) : (n list * n option) list =
 
 let sorted_ids (l : n list list) : string list = List.sort compare (List.map x_of_id l)
 
+(* ---- extraction re-validation: model values as Coq terms (util.ml, checks/common.py vm_crosscheck) ---- *)
+let coq_entry (e : entry) : string =
+  Printf.sprintf "(mkE %s %s %s %s)" (coq_nlist e.e_id) (coq_n e.e_cfg) (coq_option coq_n e.e_rt)
+    (match e.e_act with ANone -> "ANone" | AStart -> "AStart" | AStop -> "AStop")
+let coq_emap (m : (n list * entry) list) : string = coq_list (coq_pair coq_nlist coq_entry) m
+
 (* ------------------------------------------------------------------ planner *)
 
 let planner () =
@@ -61,6 +69,29 @@ let planner () =
            match split_tab line with
            | [op; arg; sin; sdes; sout] ->
              bump op;
+             if vm_pick !n then begin
+               let term =
+                 match op with
+                 | "new" -> coq_emap (new_entries (parse_cmap sin))
+                 | "build" ->
+                   let cur = parse_emap sin and des = parse_emap sdes in
+                   Printf.sprintf "(%s, %s, %s)" (coq_emap (build_pending repaired (keys cur) cur des))
+                     (coq_bool (hygienicb (ids_of cur des)))
+                     (coq_bool (if sout = "nil" then false else plan_okb cur des (parse_emap sout)))
+                 | "actions" ->
+                   let (ts, tp) = pending_actions (parse_emap sin) in
+                   Printf.sprintf "(%s, %s)" (coq_list coq_nlist ts) (coq_list coq_nlist tp)
+                 | "commit" -> coq_emap (commit (parse_emap sin))
+                 | "remove" -> coq_emap (remove_entry (id_of_x arg) (parse_emap sin))
+                 | "setrt" ->
+                   (match split ',' arg with
+                    | [k; i] -> coq_option coq_emap (set_runtime (id_of_x k) (n_of_int (int_of_string i)) (parse_emap sin))
+                    | _ -> failwith "bad setrt arg")
+                 | "clrrt" -> coq_option coq_emap (clear_runtime (id_of_x arg) (parse_emap sin))
+                 | "count" -> coq_nat (count (parse_emap sin))
+                 | _ -> failwith "unknown op" in
+               Printf.printf "VMCASE\t%s\t%s\n" line term
+             end;
              (match op with
               | "new" ->
                 let m = new_entries (parse_cmap sin) in
@@ -182,6 +213,10 @@ let runner fuel =
             let (states, ok) = accept (delay = "1") f t in
             let k = List.length states in
             if k > !maxset then maxset := k;
+            (* extraction re-validation (util.ml): the acceptor's verdict for a sampled trace, as a Coq term *)
+            if vm_pick !n then
+              Printf.printf "VMCASE\tT\t%s\t%s\t%s\t(%s, %s, %s)\n" name delay (String.concat " " toks)
+                (coq_nat (nat_of_int k)) (coq_bool ok) (coq_nat (accepted_prefix (delay = "1") f t));
             if not ok then (incr inc; Printf.printf "INCONCLUSIVE %s\n" name)
             else if states = [] then begin
               incr rej;
